@@ -634,6 +634,13 @@ CLAIMED["C04"]["text"] += (" Round 9 (fix9b): KF-CAF-DATA-MINUS-ONE REPAIRED (ca
                             "negative_size_still_ends_walk; the rule before the repair Sf.Caf.walkOld / parseOld: caf_data_to_end_walk_old_rule, caf_data_size_minus_one_old_rule. vlib/cafw64.py parser variants: -1 with trailing bytes, "
                             "file ending in / behind the edit count, -2, -1 on 'free'.")
 
+# ---- round 9 (worker handleg2): the remaining sample-granular containers on the generic handle machine (appended) ----
+for _p in ("C04", "C05", "C06", "C07", "C08"):
+    CLAIMED[_p]["text"] += (" Round 9 (handleg2): Sf.HandleG instances SVX / MPC2K / WVE / PVF / MAT4 / MAT5 / NIST / VOC (lean/SfModel/HandleGInst3.lean) and SFM_RDWR on an existing AIFF file "
+                            "(aiff_rewrite_header patches in place, lean/SfModel/HandleGAiffRw.lean): eighteen containers in vlib/handleg.py, store bytes compared; instances_lawful_all, closed_bytes_generic, "
+                            "write_two_calls_generic (lean/SfProps/C04HandleG.lean).")
+
+
 def main():
     checks = []
     for p in PROPS:
